@@ -152,3 +152,147 @@ class RotationMonitor(object):
             if snapshot_for_rotation(rec) != before:
                 ctx.violation("rotation-mutates-operand", "record %s %r changed its operand" % (opname, k), n=n, k=k)
         return post
+
+
+# ----------------------------------------------------------------------------- C16
+
+def target_text(target):
+    from Bio.SeqRecord import SeqRecord
+
+    return str(target.seq) if isinstance(target, SeqRecord) else str(target)
+
+
+class SearchMonitor(object):
+    """C16: post-conditions on DNARegex.search and SeqMatch.group against mon/rxmodel.py."""
+
+    MAXSIZE = 2 ** 63 - 1
+
+    def __init__(self, ctx, max_model_len=20000):
+        self.ctx = ctx
+        self.max_model_len = max_model_len
+        self._parse_cache = {}
+
+    def install(self):
+        boot.boot()
+        from moclo import regex
+        from moclo.record import CircularRecord
+
+        self.CircularRecord = CircularRecord
+        self.regex = regex
+        wrap_method(regex.DNARegex, "search", self._post_search)
+        wrap_method(regex.SeqMatch, "group", self._post_group)
+
+    def _supported(self, pattern):
+        if pattern not in self._parse_cache:
+            try:
+                rxmodel.parse(pattern)
+                ok = all(c in "()*+?" or c in rxmodel.IUPAC for c in pattern)
+            except Exception:
+                ok = False
+            self._parse_cache[pattern] = ok
+        return self._parse_cache[pattern]
+
+    def _post_search(self, rx, a, kw, res, exc, token):
+        ctx = self.ctx
+        names = ["string", "pos", "endpos", "linear"]
+        args = dict(zip(names, a))
+        args.update(kw)
+        string = args.get("string")
+        pos = args.get("pos", 0)
+        endpos = args.get("endpos", self.MAXSIZE)
+        linear = args.get("linear", True)
+        from Bio.Seq import Seq
+        from Bio.SeqRecord import SeqRecord
+
+        if not isinstance(string, (Seq, SeqRecord)):
+            return  # TypeError path, not part of the property
+        pattern = rx.pattern
+        if not self._supported(pattern) or len(string) > self.max_model_len or pos < 0:
+            ctx.count("search_calls_outside_model")
+            return
+        ctx.count("search_calls")
+        text = target_text(string)
+        circular = (not linear) or isinstance(string, self.CircularRecord)
+        kind = ("circular-record" if isinstance(string, self.CircularRecord) else
+                "record" if isinstance(string, SeqRecord) else "seq") + ("" if not circular or isinstance(string, self.CircularRecord) else "-nonlinear")
+        ctx.hist("search_target_kind", kind)
+        if exc is not None:
+            ctx.violation("search-raises:%s" % type(exc).__name__,
+                          "DNARegex(%r).search on %s of length %d raised %s: %s" % (pattern, kind, len(text), type(exc).__name__, str(exc)[:200]),
+                          pattern=pattern, text=text[:200])
+            return
+        exp = rxmodel.search(pattern, text, pos, None if endpos >= self.MAXSIZE else endpos, circular)
+        wit = dict(pattern=pattern, text=text if len(text) <= 300 else text[:300] + "...", pos=pos,
+                   endpos=None if endpos >= self.MAXSIZE else endpos, circular=circular, kind=kind)
+        if (res is None) != (exp is None):
+            got = None if res is None else res.span(0)
+            ctx.violation("search-found-mismatch:" + ("circular" if circular else "linear"),
+                          "DNARegex(%r).search(%s %r, pos=%r, endpos=%r) %s, but the reference matcher %s" % (
+                              pattern, kind, wit["text"][:80], pos, wit["endpos"],
+                              "found nothing" if res is None else "matched at %r" % (got,),
+                              "finds no match" if exp is None else "matches at %r" % (exp[0],)), **wit)
+            return
+        if res is None:
+            ctx.count("search_none")
+            return
+        res._verif_circular = circular
+        res._verif_text = text
+        n = len(text)
+        if exp[0][1] > n:
+            ctx.count("search_wrapped_matches")
+        if exp[0][1] - exp[0][0] > n:
+            ctx.violation("search-more-than-one-turn", "match %r longer than the target (%d)" % (exp[0], n), **wit)
+        got_spans = [tuple(res.span(g)) for g in range(len(exp))]
+        if got_spans != [tuple(x) for x in exp] or res.start() != exp[0][0] or res.end() != exp[0][1]:
+            mech = "search-start-not-leftmost" if got_spans[0][0] != exp[0][0] else "search-span-mismatch"
+            ctx.violation(mech + ":" + ("circular" if circular else "linear"),
+                          "DNARegex(%r).search(%s %r, pos=%r, endpos=%r): spans %r (start()=%r end()=%r), reference matcher says %r" % (
+                              pattern, kind, wit["text"][:80], pos, wit["endpos"], got_spans, res.start(), res.end(), exp), **wit)
+        if not circular and res.end() > n:
+            ctx.violation("search-linear-past-end", "linear match ends at %d > %d" % (res.end(), n), **wit)
+
+    def _post_group(self, m, a, kw, res, exc, token):
+        ctx = self.ctx
+        if not hasattr(m, "_verif_circular"):
+            ctx.count("group_calls_unjudged")
+            return
+        index = a[0] if a else kw.get("index", 0)
+        text = m._verif_text
+        n = len(text)
+        try:
+            a0, b0 = m.span(index)
+        except Exception:
+            return
+        circular = m._verif_circular
+        if a0 == b0:
+            cls = "empty"
+        elif b0 <= n:
+            cls = "plain" if b0 < n else "ends-at-end"
+        elif a0 >= n:
+            cls = "wholly-past-end"
+        else:
+            cls = "straddling"
+        ctx.count("group_calls")
+        ctx.hist("group_span_class", cls)
+        if cls == "straddling":
+            ctx.count("group_straddling")
+        if cls == "wholly-past-end":
+            ctx.count("group_past_end")
+        wit = dict(pattern=getattr(getattr(m.match, "re", None), "pattern", None), text=text if n <= 300 else text[:300] + "...",
+                   span=[a0, b0], index=index, n=n)
+        if exc is not None:
+            ctx.violation("group-raises:%s:%s" % (cls, type(exc).__name__),
+                          "group(%d) with span %r on a target of length %d raised %s: %s" % (index, (a0, b0), n, type(exc).__name__, str(exc)[:200]), **wit)
+            return
+        want = rxmodel.text_of(text, (a0, b0), circular)
+        try:
+            got = target_text(res)
+        except Exception as e:
+            ctx.violation("group-not-a-sequence:" + cls, "group(%d) returned %r" % (index, type(res).__name__), **wit)
+            return
+        if got != want:
+            ctx.violation("group-text:" + cls,
+                          "group(%d) of a match with span %r on a target of length %d returned %r but the text matched is %r" % (
+                              index, (a0, b0), n, got[:80], want[:80]), got=got[:300], want=want[:300], **wit)
+        if type(res).__name__ not in (type(m.rec).__name__, "SeqRecord", "Seq"):
+            ctx.violation("group-type", "group(%d) returned a %s for a %s target" % (index, type(res).__name__, type(m.rec).__name__), **wit)
